@@ -159,6 +159,7 @@ def run_scenario(sc, peer_factory=None, inv_factory=None, quiesce=True) -> Run:
     vnow = 0.0
     seq = [0]
     old_loops = []
+    shared_live = {}
 
     with warnings.catch_warnings(record=True) as wlist:
         warnings.simplefilter("always")
@@ -166,6 +167,7 @@ def run_scenario(sc, peer_factory=None, inv_factory=None, quiesce=True) -> Run:
             loop = VLoop()
             loop._vnow = vnow
             loop.events = run.events
+            loop.live = shared_live         # sockets opened on an earlier event loop of this run still count as open
             loop.loop_errors = run.loop_errors
             loop.vtime_cap = vnow + sc.get("vtime_cap", 600.0)
             loop.tx_cap = sc.get("tx_cap", 400)
@@ -214,7 +216,7 @@ def run_scenario(sc, peer_factory=None, inv_factory=None, quiesce=True) -> Run:
                         if sc.get('gc_quiesce'):
                             gc.collect()
                         st = proto_state(inv)
-                        st.update(id=cid, live=len(loop.live), t=round(loop.time(), 9))
+                        st.update(id=cid, live=len(loop.live), live_sids=sorted(loop.live), t=round(loop.time(), 9))
                         run.quiesce.append(st)
 
             async def main():
